@@ -135,21 +135,35 @@ func (k msgServer) Complete(goCtx context.Context, msg *types.MsgComplete) (*typ
 			return nil, err
 		}
 		k.order.RemoveShard(ctx, oldShard.Id)
-		if len(oldShard.RenewInfos) > 1 {
-			for i := 0; i < len(oldShard.RenewInfos)-1; i++ {
-				order, _ := k.order.GetOrder(ctx, oldShard.RenewInfos[i].OrderId)
-				orderList = append(orderList, &order)
+		// every queued renewal order lists the shard too (also one paid while the migration was in flight)
+		for i := 0; i < len(oldShard.RenewInfos); i++ {
+			listed := false
+			for _, o := range orderList {
+				if o.Id == oldShard.RenewInfos[i].OrderId {
+					listed = true
+				}
+			}
+			if listed {
+				continue
+			}
+			renewOrder, found := k.order.GetOrder(ctx, oldShard.RenewInfos[i].OrderId)
+			if found {
+				orderList = append(orderList, &renewOrder)
 			}
 		}
-		for i, order := range orderList {
+		for _, order := range orderList {
 			newShards := make([]uint64, 0)
+			hasNewShard := false
 			for _, id := range order.Shards {
+				if id == shard.Id {
+					hasNewShard = true
+				}
 				if id != oldShard.Id {
 					newShards = append(newShards, id)
 				}
 			}
-			// first order has set new shard in shards in migrate
-			if i > 0 {
+			// the order migrate was called for (and any renewal copied from it since) already lists the new shard
+			if !hasNewShard {
 				newShards = append(newShards, shard.Id)
 			}
 			order.Shards = newShards
